@@ -224,3 +224,124 @@ def zero_budget_rule(ctx, rule: str, modules: List[str], floor: int) -> None:
                       (f"`{src(bad[0][0])[:40]}` (a per-slice budget) is tested by {bad[0][2]} in `{bad[0][1][:50]}`: the legal budget 0 is treated as 'no budget', "
                        "so a zero-budget slice plans / retrieves / propagates up to the per-turn cap and the boundary check never fires") if bad else "")
     ctx.floor(rule, "functions reading per-slice budgets", n_readers, floor)
+
+
+# ------------------------------------------------------------------ a cap binds before the work it limits
+def _cap_compare(e: ast.AST):
+    """(counter source, cap source) if e is `C >= CAP` / `C > CAP` / `CAP <= C` / `CAP < C` with C = len(X) or a name"""
+    if not (isinstance(e, ast.Compare) and len(e.ops) == 1):
+        return None
+    l, op, r = e.left, e.ops[0], e.comparators[0]
+    if isinstance(op, (ast.LtE, ast.Lt)):
+        l, r = r, l
+    elif not isinstance(op, (ast.GtE, ast.Gt)):
+        return None
+
+    def counter(x):
+        if isinstance(x, ast.Call) and dotted(x.func) == "len" and len(x.args) == 1 and isinstance(x.args[0], (ast.Name, ast.Attribute)):
+            return ("len", src(x.args[0]))
+        if isinstance(x, ast.Name):
+            return ("num", x.id)
+        return None
+
+    c = counter(l)
+    if c is None or isinstance(r, ast.Constant):
+        return None
+    return c, src(r)
+
+
+def cap_tested_after_only(ctx, fn: Func) -> List[Tuple[ast.AST, str, str]]:
+    """(growth construct, counter, cap) where a loop stops with `if <counter> >= <cap>: break` but the unit of work that grows
+    the counter (X.append / n += 1) can be reached from the head of the budgeted loop without passing any test of that
+    comparison: with cap 0 (a legal 'nothing' budget) one unit of work is still done"""
+    cfg = ctx.cfg(fn)
+    out = []
+    groups: Dict[Tuple[Tuple[str, str], str], List] = {}
+    for n in cfg.nodes:
+        if n.kind != "cond" or n.ast is None:
+            continue
+        for e in ast.walk(n.ast):
+            cc = _cap_compare(e)
+            if cc is not None:
+                groups.setdefault(cc, []).append(n)
+    if not groups:
+        return out
+    pm: Dict[int, ast.AST] = {}
+    for p in ast.walk(fn.node):
+        for ch in ast.iter_child_nodes(p):
+            pm[id(ch)] = p
+
+    def loops_of(a):
+        res = []
+        cur = a
+        while id(cur) in pm:
+            cur = pm[id(cur)]
+            if isinstance(cur, (ast.For, ast.While, ast.AsyncFor)):
+                res.append(cur)
+            if isinstance(cur, (ast.FunctionDef, ast.AsyncFunctionDef, ast.Lambda)):
+                break
+        return res
+
+    for ((kind, cname), cap), conds in groups.items():
+        # only budgets that stop a loop: some guard's true-branch leads to a break / return / stop flag
+        stops = [c for c in conds if isinstance(c.stmt, ast.If) and any(isinstance(z, (ast.Break, ast.Return)) or (isinstance(z, ast.Assign) and isinstance(z.value, ast.Constant) and z.value.value is True)
+                                                                       for b in c.stmt.body for z in ast.walk(b))]
+        if not stops:
+            continue
+        cond_loops = [l for c in stops for l in loops_of(c.stmt)]
+        growth = []
+        for n in cfg.nodes:
+            if n.kind != "stmt" or n.ast is None:
+                continue
+            a = n.ast
+            if kind == "len" and isinstance(a, ast.Expr) and isinstance(a.value, ast.Call) and isinstance(a.value.func, ast.Attribute) and a.value.func.attr in ("append", "add", "extend", "appendleft") \
+                    and src(a.value.func.value) == cname:
+                growth.append(n)
+            if kind == "num" and isinstance(a, ast.AugAssign) and isinstance(a.op, ast.Add) and isinstance(a.target, ast.Name) and a.target.id == cname:
+                growth.append(n)
+        for g in growth:
+            gl = loops_of(g.ast)
+            shared = [l for l in gl if any(l is cl for cl in cond_loops)]
+            if not shared:
+                continue
+            outer = shared[-1]
+            heads = [h for h in cfg.nodes if h.kind == "iter" and h.ast is outer] or [h for h in cfg.nodes if h.kind == "cond" and h.stmt is outer]
+            if not heads:
+                continue
+            p = cfg.path(heads, lambda m: m is g, avoid=lambda m: m in conds, include_start=True)
+            if p is not None:
+                out.append((g.ast, f"{'len(' + cname + ')' if kind == 'len' else cname}", cap))
+    return out
+
+
+def zero_cap_rule(ctx, rule: str, quals: List[str], floor: int) -> None:
+    """for the named functions: every loop budget `if <counter> >= <cap>: break` is also tested before the unit of work it
+    limits - unless the validator never lets the cap be 0 (minimum read from its own `< N -> error` tests) or every return of
+    the collected list is cut to the cap.  A budget of 0 is a legal setting ("caps incl. 0"): testing it only after the first
+    unit of work lets one unit through."""
+    from .rules.c14 import _validator_minimum
+    n_groups = 0
+    for q in quals:
+        fn = ctx.func(q)
+        cfg = ctx.cfg(fn)
+        n_groups += sum(1 for n in cfg.nodes if n.kind == "cond" and n.ast is not None and any(_cap_compare(e) is not None for e in ast.walk(n.ast)))
+        seen = set()
+        for g, counter, cap in cap_tested_after_only(ctx, fn):
+            if (counter, cap) in seen:
+                continue
+            seen.add((counter, cap))
+            leaf = cap.replace("int(", "").replace("float(", "").strip("()").split(".")[-1]
+            vmin, n_sites = _validator_minimum(ctx, leaf)
+            key = f"{fn.qual}/zero-cap-binds:{leaf}"
+            if vmin is not None and vmin >= 1:
+                ctx.holds(rule, key, fn.loc(g), f"`{cap}` is tested after the first `{src(g)[:30]}` only, but the validator keeps {leaf} >= {vmin}", nontrivial=False)
+                continue
+            # every return of the collected list is cut to the cap
+            cname = counter[4:-1] if counter.startswith("len(") else None
+            rets = [r for r in walk_no_defs(fn.node) if isinstance(r, ast.Return) and r.value is not None and cname and any(isinstance(y, ast.Name) and y.id == cname for y in ast.walk(r.value))]
+            if cname and rets and all(isinstance(r.value, ast.Subscript) and isinstance(r.value.slice, ast.Slice) and r.value.slice.upper is not None and leaf in src(r.value.slice.upper) for r in rets):
+                ctx.holds(rule, key, fn.loc(g), f"`{cap}` is tested after the append only, but every return cuts `{cname}` to it", nontrivial=False)
+                continue
+            ctx.violation(rule, key, fn.loc(g), f"`{src(g)[:40]}` can be reached from the head of the budgeted loop without passing a test of `{counter} >= {cap}` (the test follows the work): "
+                          f"with {leaf} = 0 - a legal 'nothing' budget - one unit of work is still done")
+    ctx.floor(rule, "loop budget tests (counter >= cap) in the examined functions", n_groups, floor)
